@@ -98,11 +98,13 @@ CHECKS["C13"] = dict(
 )
 CHECKS["C16"] = dict(
     category="other",
-    technique="call-graph SCC depth-guard rule on the glyf outline visitor (all OutlineSink instantiations); panic ledger rule on the outline module",
+    technique="call-graph SCC depth-guard rule on the glyf outline visitor (all OutlineSink instantiations); panic, element-indexing and overflow-arithmetic ledger rules on the outline module; table reading of the simple and composite glyph flag constants against the OpenType specification and of every flag predicate (self & X == X)",
     text=("Static decision of the clause 'to a bounded nesting depth' (monotone depth counter, strict step and dominating bound test on every "
-          "cycle through visit_outline/visit_composite_glyph_outline) and of the explicit-panic discipline of the glyf outline code. Contour "
-          "walking, implied points, flag/coordinate decoding and transforms are not decided."),
-    design_ref="DESIGN.md section 6, C16",
+          "cycle through visit_outline/visit_composite_glyph_outline), of the panic/indexing/arithmetic discipline of the glyf outline code, and of "
+          "two necessary table conditions of flag decoding: the six simple-glyph and twelve composite-glyph flag constants equal the specification "
+          "and each predicate tests the constant it is named after. Contour walking, implied points, coordinate decoding arithmetic, component "
+          "offset scaling and transforms are not decided."),
+    design_ref="DESIGN.md section 6 (C16) and 11.2",
 )
 CHECKS["C17"] = dict(
     category="other",
